@@ -206,6 +206,14 @@ func r01_2(c *Ctx, rule string) {
 		c.R.Check(len(h) == 0, rule, c.siteName(call)+"/last", c.pos(call), "no metadata call follows chtimes", "a metadata call follows chtimes")
 	}
 	c.ObSuccessNeeds(rule, base+"/success-needs-chtimes", fn, nil, nil, c.checkedCallPred("fsutil.chtimes"), "a checked chtimes")
+	for _, call := range chm {
+		ex := c.explorer(fn)
+		ex.From = call
+		ex.Target = func(in ssa.Instruction, st *eng.State) bool { return c.P.IsCallTo(in, "os.Lchown", "os.Chown") }
+		ex.StopAtTarget = true
+		h := ex.Run()
+		c.R.Check(len(h) == 0 && !ex.Exhausted, rule, c.siteName(call)+"/no-chown-after", c.pos(call), "no ownership change after the mode was set", "the owner is changed after the mode was set: chown clears the setuid/setgid bits just applied")
+	}
 	// Lchown before Chmod (chown clears setuid/setgid)
 	c.ObPrecedes(rule, base+"/lchown-before-chmod", fn, nil, c.callPred("os.Lchown"), c.callPred("os.Chmod"), "os.Lchown", "os.Chmod")
 	// xattrs
